@@ -173,7 +173,12 @@ def run_scenario(scn):
                 for extra in procs[1:]:
                     await extra.start()
                 if pi == 0:
+                    # an unrelated second run of the same workflow that nobody ever answers (it stays `running`, waiting for its human)
+                    if scn.get("blocker") == "before":
+                        await proc.start_run("h0", cs.tr.rec)
                     await proc.start_run("h1", cs.tr.rec)
+                    if scn.get("blocker") == "after":
+                        await proc.start_run("h0", cs.tr.rec)
                 for s in scn.get("sends", []):
                     if t0 <= s["at"] < t1 or (last and s["at"] >= t1):
                         senders.append(asyncio.ensure_future(send_at(s)))
